@@ -72,7 +72,7 @@ def ensure_built(clean=False):
                 return False, 'coq_makefile failed:\n' + out + err
         if clean:
             _run(['make', 'clean'], cwd=COQ, timeout=300)
-        rc, out, err, dt = _run(['timeout', '3000', 'make', '-j%d' % NPROC], cwd=COQ, timeout=3100)
+        rc, out, err, dt = _run(['timeout', '3000', 'make', '-k', '-j%d' % NPROC], cwd=COQ, timeout=3100)
         if rc != 0:
             return False, 'make failed (%.0fs):\n%s\n%s' % (dt, out[-4000:], err[-6000:])
         return True, 'make ok (%.1fs)' % dt
@@ -323,7 +323,7 @@ def mkrng(seed, salt=''):
     return random.Random('%s/%s' % (seed, salt))
 
 
-def correspond(ctx, res, cases, imports, tag='cases', **kw):
+def correspond(ctx, res, cases, imports, tag='cases', compare=None, sample=None, **kw):
     """cases: list of dicts with keys
          input   – JSON-able description (goes into samples / replay files)
          expr    – Gallina expression of type string computing the model's observation
@@ -341,7 +341,7 @@ def correspond(ctx, res, cases, imports, tag='cases', **kw):
     if len(res.samples) < 6:
         for c in cases[:: max(1, len(cases) // 6)]:
             if len(res.samples) < 6:
-                s = dict(input=c['input'], observed=c['impl'][:300])
+                s = sample(c) if sample else dict(input=c['input'], observed=c['impl'][:300])
                 res.samples.append(s)
     if ctx.impl_only:
         return
@@ -351,7 +351,11 @@ def correspond(ctx, res, cases, imports, tag='cases', **kw):
     for c, m in zip(cases, out):
         if m is None:
             continue
-        if m != c['impl']:
+        if compare is not None:
+            diff = compare(c, m)
+            if diff:
+                res.disagreements.append(dict(case=c['input'], where=diff))
+        elif m != c['impl']:
             res.disagreements.append(dict(case=c['input'], impl=c['impl'][:2000], model=m[:2000]))
 
 
